@@ -18,7 +18,7 @@ pub fn set_flav(st: &mut Value, f: (&str, &str)) {
 
 pub fn hostile_keys() -> Vec<String> {
     let mut v: Vec<String> = vec![
-        "", "a", "k", "K", "my-key", "a\tb", "a\nb", "\"q\"", "\u{0}", "nul\u{0}mid", "../x", "../../etc/passwd", "/etc/passwd", "a/b", "a/b/../c", "\u{e9}", "e\u{301}", "key with spaces", "\u{65e5}\u{672c}\u{8a9e}", "\u{1f980}", "\\back\\slash", "\u{7f}", "\r\n", "{\"key\":\"x\"}", "null", "\u{1}\u{2}\u{1f}", ".", "..", "index-v5", "tmp", "\u{feff}bom", "\u{202e}rtl",
+        "", "a", "k", "K", "my-key", "a\tb", "a\nb", "\"q\"", "\u{0}", "nul\u{0}mid", "../x", "../../etc/passwd", "/etc/passwd", "a/b", "a/b/../c", "\u{e9}", "e\u{301}", "key with spaces", "\u{65e5}\u{672c}\u{8a9e}", "\u{1f980}", "\\back\\slash", "\u{7f}", "\r\n", "{\"key\":\"x\"}", "null", "\u{1}\u{2}\u{1f}", ".", "..", "index-v5", "tmp", "\u{feff}bom", "\u{202e}rtl", "line\u{2028}sep", "para\u{2029}sep", "next\u{85}line", "\u{fffd}", "\u{10ffff}", "v\u{b}tab\u{c}ff",
     ]
     .into_iter()
     .map(|s| s.to_string())
@@ -163,7 +163,8 @@ pub fn chunking(rng: &mut Rng, len: u64) -> Option<Vec<u64>> {
 }
 
 pub fn meta_string(rng: &mut Rng) -> String {
-    match rng.below(6) {
+    match rng.below(7) {
+        6 => "line\u{2028}and\u{2029}paragraph separators, \u{85} and \u{fffd}".to_string(),
         0 => String::new(),
         1 => "plain".to_string(),
         2 => "tab\there \"quoted\" back\\slash\nnewline".to_string(),
@@ -502,9 +503,30 @@ pub fn gen_c02(rng: &mut Rng) -> Value {
     sc
 }
 
+fn all_flav_audit_c05() -> Vec<Value> {
+    PURE.iter().map(|f| json!({"k":"audit","bin":f.0,"mode":f.1,"what":["metadata","read","list"]})).collect()
+}
+
 pub fn gen_c05(rng: &mut Rng) -> Value {
     if rng.chance(1, 14) {
         return gen_bucket_mates("C05", rng);
+    }
+    if rng.chance(1, 16) {
+        // a streaming writer is open on a key while that key is removed for good (its bucket file is unlinked); the
+        // commit that follows is the most recent successful write
+        let keys = pick_keys_p(rng, 2, 1, 3);
+        let vals = mk_vals(rng, 2, 0);
+        let mut steps = Vec::new();
+        let mut w0 = json!({"k":"api","op":"write","entry":"write","key":0,"val":0});
+        set_flav(&mut w0, flav(rng));
+        steps.push(w0);
+        let len = vlen(&vals, 1).max(2);
+        let a = rng.range(1, len - 1);
+        let mut w = json!({"k":"api","op":"write","entry":*rng.pick(&["create","opts"]),"key":0,"val":1,"chunks":[a, len - a],"mid_after":0,"mid":{"act":"remove","bucket":0},"mid_deletes_bucket":true,"opts":{}});
+        set_flav(&mut w, flav(rng));
+        steps.push(w);
+        steps.extend(all_flav_audit_c05());
+        return scenario("C05", keys, vals, steps, rng);
     }
     let long = rng.chance(1, 6);
     let m = Mix {
